@@ -77,6 +77,18 @@ def run(chk, prog):
         chk.check(diff == want, "R2", A.loc(ka.fn, {"line": din.line}),
                   "%s-kick: source cell = destination cell shifted along %s by (stored index - floor(N/2)) and by nothing else "
                   "(source-destination = %s)" % (axis, kv.name, diff), "KickMap::apply:%s:shift:%s" % (axis, diff))
+        chk.check(b.hinfo_same_entry, "R2", site, "%s-kick: source index and weight of a stencil point come from the same table entry (%s)"
+                  % (axis, sorted({str(a_.idx[0]) for a_ in b.hinfo if a_.idx})), "KickMap::apply:%s:hinfo-entries:%s" % (axis, sorted({str(a_.idx[0]) for a_ in b.hinfo if a_.idx})))
+        # every cell of every bunch is produced exactly once: destination = n*N*N + (the two cell coordinates with strides N and 1)
+        ov = [L for L in cell_loops if L is not kv][0]
+        nl = loops.get("n")
+        ostride = D.coeff(ov.sym, 1)
+        bij = nl is not None and {stride, ostride} == {sp.Integer(1), S.N} and sp.expand(D - (nl.sym * S.N ** 2 + stride * kv.sym + ostride * ov.sym)) == 0
+        chk.check(bij, "R2", A.loc(ka.fn, {"line": dout.line}),
+                  "%s-kick: the destination index enumerates every cell of every bunch once (n*N*N + cell; got %s)" % (axis, D),
+                  "KickMap::apply:%s:destination:%s" % (axis, D))
+        chk.check(nl is not None and nl.lo == 0 and sp.expand(S.norm(nl.hi) - S.B) == 0 and ov.lo == 0 and sp.expand(S.norm(ov.hi).subs(sz) - S.N) == 0, "R2", site,
+                  "%s-kick: all bunches and all rows across the kick direction are produced" % axis, "KickMap::apply:%s:outer-ranges" % axis)
         chk.check(kv.lo == 0 and sp.expand(S.norm(kv.hi).subs(sz) - S.N) == 0, "R2", site,
                   "%s-kick: every cell along the kick direction is produced (range [%s,%s))" % (axis, kv.lo, kv.hi),
                   "KickMap::apply:%s:range" % axis)
@@ -245,6 +257,13 @@ def run(chk, prog):
     chk.check(diff == sp.expand(hidx - y), "R5", A.loc(fa, {"line": din.line}),
               "source and destination cell share bunch and x row: source - destination = stored index - y (got %s)" % diff,
               "FP::apply:shift:%s" % diff)
+    fsz = {sp.Symbol("_meshxsize", real=True): S.N, sp.Symbol("_ysize", real=True): S.N}
+    Df = sp.expand(S.norm(dout.idx[0]).subs(fsz))
+    chk.check(sp.expand(Df - (lv["n"].sym * S.N ** 2 + lv["x"].sym * S.N + y)) == 0, "R5", A.loc(fa, {"line": dout.line}),
+              "the destination index enumerates every cell of every bunch once (n*N*N + x*N + y; got %s)" % Df, "FP::apply:destination:%s" % Df)
+    rng = all(lv[v].lo == 0 for v in "nxy") and sp.expand(S.norm(lv["n"].hi) - S.B) == 0 and \
+        all(sp.expand(S.norm(lv[v].hi).subs(fsz) - S.N) == 0 for v in "xy")
+    chk.check(rng, "R5", A.loc(fa, {"line": dout.line}), "all bunches, columns and rows are produced (%s)" % [(lv[v].lo, lv[v].hi) for v in "nxy"], "FP::apply:ranges")
     chk.check(jl[0].lo == 0 and jl[0].hi == sp.Symbol("_ip", real=True), "R5", A.loc(fa, {"line": h.line}),
               "all _ip stencil cells of a row are applied", "FP::apply:cells-range")
     chk.notes.append("C01: column sums of every transport operator (kick maps via weights+index maps, Fokker-Planck stencils incl. "
